@@ -810,12 +810,20 @@ def _pick(rng, strs):
     return strs[183 + rng.randrange(2197)]
 
 
-def expand_sequence(seq, kind, completed):
+# what stands for a "regular" header in the sequence cases: besides an arbitrary field, the regular fields a receiver
+# treats specially (so that "a regular header was seen" must not depend on which regular header it was)
+REGULARS = [(b"x-r", b"1"), (b"content-length", b"0"), (b"transfer-encoding", b"trailers"), (b"cookie", b"a=b")]
+
+
+def expand_sequence(seq, kind, completed, variant=0):
     v = VKIND[kind]
     hdrs = []
+    reg = REGULARS[variant % len(REGULARS)]
     for t in seq:
-        if t == 8:
-            hdrs.append((b"x-b", b"1"))
+        if t == 7 and variant % len(REGULARS):
+            hdrs.append(reg)
+        elif t == 8:
+            hdrs.append(reg if variant % len(REGULARS) else (b"x-b", b"1"))
             if v in ("request", "push_promise"):
                 cand = [3, 1, 2, 0]
             elif v in ("response", "push_response"):
@@ -846,6 +854,14 @@ def gen_seqs(batch, res):
                 enc = ("lsq", "lit", "dyn")[i % 3]
                 run_case(res, kind, expand_sequence(seq, kind, completed), enc)
                 res.count("sequence_cases")
+                if 7 in seq or 8 in seq:
+                    # the same sequence with a specially handled regular field in place of the arbitrary one
+                    # (a repeated content-length is a different defect class: skip sequences that would repeat it)
+                    variant = 1 + (i + si) % (len(REGULARS) - 1)
+                    if not (REGULARS[variant][0] == b"content-length" and (list(seq).count(7) + list(seq).count(8)) > 1):
+                        run_case(res, kind, expand_sequence(seq, kind, completed, variant), ("lsq", "lit", "dyn")[(i + 1) % 3])
+                        res.count("sequence_cases")
+                        res.count("sequence_cases_special_regular")
     res.sample({"gen": "seqs", "range": [batch["lo"], batch["hi"]], "example": [SEQ_TOKENS[t] for t in seqs[batch["hi"] - 1]]}, limit=1)
 
 
